@@ -165,7 +165,7 @@ var insideTargets = []string{
 	"nonexistent", "a/nonexistent", "l", "m/a",
 }
 
-var modes = []int64{0644, 0755, 0600, 0444, 0000, 0777, 04755, 01777, 0200, 0500, 0555, 02750}
+var modes = []int64{0644, 0755, 0600, 0444, 0000, 0777, 04755, 01777, 0200, 0500, 0555, 02750, 040700, 0100600, 0120777, 060644}
 
 func genSimpleName(t *rapid.T, label string) string {
 	n := rapid.IntRange(1, 3).Draw(t, label+"depth")
@@ -382,7 +382,6 @@ func Exists(p string) bool {
 	return err == nil
 }
 
-
 // scenario plants one of the known attack families (with drawn variations)
 // in front of / among the randomly drawn entries, so that their neighbourhood
 // is explored far more often than independent draws would reach it.
@@ -483,4 +482,81 @@ func scenario(t *rapid.T, rest []tarx.Entry) []tarx.Entry {
 		out = append(out[:pos], append([]tarx.Entry{r}, out[pos:]...)...)
 	}
 	return out
+}
+
+// ---------------------------------------------------------------------------
+// Sequences: several archives unpacked one after the other into the same
+// destination path (the way a long-running service reuses a work directory),
+// optionally emptying the destination in between.
+
+type SeqCase struct {
+	First Case   `json:"first"` // arena, spelling, pre-populated dst and the first archive
+	More  []Step `json:"more"`  // the archives that follow
+}
+
+type Step struct {
+	Entries []tarx.Entry `json:"entries"`
+	Allow   []string     `json:"allow,omitempty"`
+	Wipe    bool         `json:"wipe,omitempty"` // remove dst's content before this step
+}
+
+// AsCase renders a step as a Case sharing the first step's arena settings.
+func (s SeqCase) AsCase(i int) Case {
+	if i == 0 {
+		return s.First
+	}
+	st := s.More[i-1]
+	return Case{Spelling: s.First.Spelling, Entries: st.Entries, Allow: st.Allow, Fault: Fault{Kind: "none"}}
+}
+
+// GenSeq draws a sequence of 2-3 archives. Later archives reuse names of
+// earlier ones with other entry kinds (a directory becomes a link and the
+// other way round), so that what one call learnt about dst is wrong for the next.
+func GenSeq(t *rapid.T) SeqCase {
+	s := SeqCase{First: GenCase(t, 30, 15, false, true)}
+	n := rapid.IntRange(1, 2).Draw(t, "nmore")
+	var earlier []tarx.Entry
+	earlier = append(earlier, s.First.Entries...)
+	for i := 0; i < n; i++ {
+		c := GenCase(t, 40, 20, false, true)
+		st := Step{Entries: c.Entries, Allow: c.Allow, Wipe: rapid.IntRange(0, 2).Draw(t, "wipe") == 0}
+		// re-type some names of earlier archives
+		k := rapid.IntRange(0, 3).Draw(t, "retype")
+		for j := 0; j < k && len(earlier) > 0; j++ {
+			e := earlier[rapid.IntRange(0, len(earlier)-1).Draw(t, "which")]
+			base := strings.Trim(strings.TrimSuffix(e.Name, "/"), "/")
+			if base == "" || strings.Contains(base, "..") {
+				continue
+			}
+			top := strings.Split(base, "/")[0]
+			var planted []tarx.Entry
+			switch rapid.IntRange(0, 3).Draw(t, "how") {
+			case 0: // the top directory of an earlier entry becomes a link that leaves dst by way of another link
+				planted = []tarx.Entry{{Name: "zz-here", Type: "symlink", Mode: 0777, Link: "."},
+					{Name: top, Type: "symlink", Mode: 0777, Link: "zz-here/" + rapid.SampledFrom([]string{"..", "../dst-evil", "../outside"}).Draw(t, "esc")},
+					{Name: top + "/planted/x", Type: rapid.SampledFrom([]string{"file", "dir", "xglobal"}).Draw(t, "ptype"), Mode: 0644, Body: "IN:planted"}}
+			case 1: // ... or an allow-listed outward link
+				planted = []tarx.Entry{{Name: top, Type: "symlink", Mode: 0777, Link: "../outside"},
+					{Name: top + "/planted", Type: "file", Mode: 0644, Body: "IN:planted"}}
+				st.Allow = []string{"../outside"}
+			case 2: // a link that an earlier archive left dangling now finds its target
+				planted = []tarx.Entry{{Name: "here", Type: "symlink", Mode: 0777, Link: "."}, {Name: "a", Type: "symlink", Mode: 0777, Link: "."}}
+			default: // the reverse order: this archive leaves a dangling link through a name a later one may create
+				planted = []tarx.Entry{{Name: "up-" + top, Type: "symlink", Mode: 0777, Link: rapid.SampledFrom([]string{"here/..", "a/..", top + "/.."}).Draw(t, "dangling")}}
+			}
+			pos := rapid.IntRange(0, len(st.Entries)).Draw(t, "plantpos")
+			st.Entries = append(st.Entries[:pos:pos], append(planted, st.Entries[pos:]...)...)
+		}
+		earlier = append(earlier, st.Entries...)
+		s.More = append(s.More, st)
+	}
+	return s
+}
+
+// Wipe empties dst (keeping the directory itself).
+func (a *Arena) Wipe() {
+	ents, _ := os.ReadDir(a.Dst)
+	for _, e := range ents {
+		fsx.RemoveAll(filepath.Join(a.Dst, e.Name()))
+	}
 }
